@@ -616,6 +616,9 @@ def decide(root, prop, tier, seed, scratch, t0, ev_path):
                 violations.append(dict(oid=oid, backend="kani", harness=h, detail=fc, raw=r["raw"], props=h["props"]))
 
     if dev:
+        for ur in ures:
+            ft = sorted(ur.get("fn_times", {}).items(), key=lambda kv: -kv[1]["ms"])[:10]
+            log("slowest:", [(k.split("::", 2)[-1], v["ms"], v["ok"]) for k, v in ft])
         for v in violations:
             log("---- FAILED", v["oid"])
             d = v.get("detail", {})
